@@ -463,8 +463,18 @@ func (p *Parser) checkNewVariableNameToken(token lexer.Token, ctx context) error
 }
 
 func (p *Parser) getUsedFuncs(startFunc string) []string {
+	return p.collectUsedFuncs(startFunc, map[string]bool{})
+}
+
+func (p *Parser) collectUsedFuncs(startFunc string, visited map[string]bool) []string {
 	usedFuncs := []string{}
 	startFunc = strings.TrimSpace(startFunc)
+
+	// Every function is only expanded once, otherwise the effort grows exponentially with shared callees.
+	if visited[startFunc] {
+		return usedFuncs
+	}
+	visited[startFunc] = true
 
 	if usedFuncsTemp, exists := p.usedFuncs[startFunc]; exists {
 		if len(startFunc) > 0 && !slices.Contains(usedFuncs, startFunc) {
@@ -475,7 +485,7 @@ func (p *Parser) getUsedFuncs(startFunc string) []string {
 			if !slices.Contains(usedFuncs, usedFuncTemp) {
 				usedFuncs = append(usedFuncs, usedFuncTemp)
 			}
-			usedSubFuncs := p.getUsedFuncs(usedFuncTemp)
+			usedSubFuncs := p.collectUsedFuncs(usedFuncTemp, visited)
 
 			for _, usedSubFunc := range usedSubFuncs {
 				if !slices.Contains(usedFuncs, usedSubFunc) {
